@@ -451,9 +451,10 @@ def ent_serialise(ent: EntityDef, file: IO[bytes], str_dict: BinStrSerialise) ->
     file.write(_fmt_ent_header.pack(
         flags.value,
         len(ent.bases),
-        len(ent.keyvalues),
-        len(ent.inputs),
-        len(ent.outputs),
+        # Empty tag maps are skipped below, so they must not be counted either.
+        sum(map(bool, ent.keyvalues.values())),
+        sum(map(bool, ent.inputs.values())),
+        sum(map(bool, ent.outputs.values())),
         len(ent.resources),
     ))
     for base_ent in ent.bases:
